@@ -80,6 +80,11 @@ def child_probe(ctx, st, test, what, key_prefix, env=None):
         ctx.violation("%s:%s" % (key_prefix, fn), "%s: the process panics in %s: %s" % (what, fn, m.group(1)[:160] if m else ""),
                       {"engine": test, "env": env or {}})
         return False
+    st_ = h.library_stall(out)
+    if st_:
+        ctx.violation("hang:library-%s:%s" % st_, "%s: the client stopped making progress (%s in %s, goroutine dump of the harness "
+                      "watchdog); the calls in flight never return" % (what, st_[0], st_[1]), {"engine": test, "env": env or {}})
+        return False
     ctx.inconclusive.append("engine %s died without a panic message (exit %s)" % (test, rep.get("_exit")))
     return False
 
